@@ -108,6 +108,7 @@ func verifC19_SyncPrefix() {
 	nh := 1
 
 	s := &syncer{cluster: &cluster{}, pullInterval: time.Second, done: make(chan struct{})}
+	verifInitMaps(s) // maps a bypassed constructor would have made
 	ch, _ := s.SyncPrefix(prefix)
 
 	writes := verifBound("writes")
@@ -203,6 +204,7 @@ func verifC19_SyncKey() {
 	vTickCh = make(chan time.Time, 8)
 	vPullFails, vWatchCount = false, 0
 	s := &syncer{cluster: &cluster{}, pullInterval: time.Second, done: make(chan struct{})}
+	verifInitMaps(s) // maps a bypassed constructor would have made
 	ch, _ := s.Sync("/k")
 	verifQuiesce()
 	vStoreKV["/k"] = "v1"
@@ -241,6 +243,7 @@ func verifC19_SlowConsumer() {
 	vTickCh = make(chan time.Time, 8)
 	vPullFails, vWatchCount = false, 0
 	s := &syncer{cluster: &cluster{}, pullInterval: time.Second, done: make(chan struct{})}
+	verifInitMaps(s) // maps a bypassed constructor would have made
 	ch, _ := s.SyncPrefix(prefix)
 	// more writes than the channel capacity; the consumer reads a few snapshots, then stalls
 	writes := 11 + verifChoose("writesBeyondCapacity", verifBound("extraWrites")+1)
